@@ -131,10 +131,10 @@ def materialise(item):
     p = copy.deepcopy(item["case"])
     if item["vu"]:
         for s in p["streams"]:
-            for k, u in (("t_supply", "degC"), ("t_target", "degC"), ("heat_flow", "kW"), ("dt_cont", "degC"), ("htc", "kW/m2/K")):
+            for k, u in (("t_supply", "degC"), ("t_target", "degC"), ("heat_flow", "kW"), ("dt_cont", "K"), ("htc", "kW/m2/K")):
                 s[k] = dict(value=s[k], units=u)
         for s in p["utilities"]:
-            for k, u in (("t_supply", "degC"), ("t_target", "degC"), ("dt_cont", "degC"), ("htc", "kW/m2/K"), ("price", "$/MWh")):
+            for k, u in (("t_supply", "degC"), ("t_target", "degC"), ("dt_cont", "K"), ("htc", "kW/m2/K"), ("price", "$/MWh")):
                 s[k] = dict(value=s[k], units=u)
     return p
 
